@@ -21,6 +21,11 @@ ALIGNS = [1, 1, 2, 4, 8, 8, 16, 32, 64]
 SMART_OK = {"leaf", "leaf_n", "direct", "ref", "ts", "aligned", "tracked", "seg2", "fb", "mra"}
 
 
+# compositions with a differently configured spare object for the command xm (move assignment + move construction)
+XFER_OK = {"direct", "anyref", "anyref_n", "aligned", "aligned_n", "tracked", "seg2", "seg3", "fb", "fb_aligned",
+           "aligned_tracked", "ref_aligned", "mra", "fb_pool", "fb_coll"}
+
+
 def comp_cmds(rng, name, n):
     cmds = []
     mixed = name in ("fb_pool", "fb_apool", "fb_coll")
@@ -49,6 +54,8 @@ def comp_cmds(rng, name, n):
             cmds.append("%s %d %d" % (rng.choice(["uq", "uq", "ua", "sh", "ub"]), rng.choice([0, 1, 2, 3, 4, 4]), rng.choice([1, 2, 3, 7])))
         elif r < 0.70 and smart:
             cmds.append("rs %d" % rng.randint(0, 10))
+        elif r < 0.73 and name in XFER_OK:
+            cmds.append("xm")
         elif r < 0.82:
             cmds.append("d %d" % rng.randint(0, 30))
         elif r < 0.95:
